@@ -477,6 +477,9 @@ impl<F: Flavor> System for Sweep<F> {
         for now in [0u64, 1000, u64::MAX - 10_000] {
             for dur in sweep_domain(b) {
                 n += 1;
+                if n % 512 == 0 {
+                    crate::core::heartbeat();
+                }
                 clock().set_time(now);
                 let timer: Box<GenericTimerService<F::M>> = Box::new(GenericTimerService::new(clock()));
                 let t: &'static GenericTimerService<F::M> = unsafe { &*(&*timer as *const GenericTimerService<F::M>) };
